@@ -74,48 +74,104 @@ def Mon.learn (m : Mon) (op : MOp) : Mon :=
   | .stopDone true true => { m with stopOk := true }
   | _ => m
 
-/-- The property clauses, each with its signature.  `m` is the bookkeeping *including* the
-current operation (`learn` already applied); `m.cur` is the state before the operation. -/
+def isCmdOp : MOp → Bool
+  | .cmd _ => true | _ => false
+def accepted (o : Obs) : Bool := o.reply == some Reply.ok
+def retireAccepted (op : MOp) (o : Obs) : Bool :=
+  match op with | .cmd c => isRetireCmd c && accepted o | _ => false
+def exitAccepted (op : MOp) (o : Obs) : Bool :=
+  match op with | .cmd c => isExitCmd c && accepted o | _ => false
+
+/-- The property clauses in the order in which they are reported: (violated?, signature).
+`m` is the bookkeeping *including* the current operation (`learn` already applied);
+`m.cur` is the node state before the operation. -/
+def Mon.clauses (m : Mon) (op : MOp) (o : Obs) : List (Bool × String) :=
+  [ -- the guards on the state in which a command may be accepted
+    (retireAccepted op o && !(m.cur == .working || m.cur == .retiring), "C12/retire-accepted-in-wrong-state"),
+    (exitAccepted op o && m.cur != .retired, "C12/exit-accepted-when-not-retired"),
+    -- the published state only ever moves forward
+    (!monotoneFrom m.cur.rank o.pubs, "C12/state-regression"),
+    -- the published state is the node's state
+    (lastOr m.cur o.pubs != o.st, "C12/published-state-differs"),
+    -- StopNode at most once, and only as part of an accepted exit
+    (decide (m.stopsTotal + o.stops > 1), "C12/stopnode-twice"),
+    (decide (o.stops > 0) && !exitAccepted op o, "C12/stopnode-without-exit"),
+    -- services are told to retire only as part of an accepted retire
+    (o.sent.any (fun p => p.2 == SCmd.retire) && !retireAccepted op o, "C12/retire-sent-without-accept"),
+    -- retire: every hosted service declared support, every hosted service is told, the node is retiring
+    (retireAccepted op o && !allIn m.n m.declared, "C12/retire-accepted-without-support"),
+    (retireAccepted op o && !(List.range m.n).all (fun i => o.sent.contains (i, SCmd.retire)),
+      "C12/retire-not-told-everyone"),
+    (retireAccepted op o && o.st != .retiring, "C12/retire-accepted-not-retiring"),
+    -- retired only after every hosted service reported retired ...
+    (decide (3 ≤ o.st.rank) && !allIn m.n m.reported, "C12/retired-before-all-reported"),
+    -- ... and as soon as all did (a node that hosts something)
+    (decide (0 < m.n) && allIn m.n m.reported && decide (o.st.rank < 3), "C12/not-retired-after-all-reported"),
+    -- exit: StopNode is called, the node is exiting
+    (exitAccepted op o && o.stops != 1, "C12/exit-without-stopnode"),
+    (exitAccepted op o && o.st != .exiting, "C12/exit-accepted-not-exiting"),
+    -- exited only after the stop succeeded
+    (o.st == .exited && !m.stopOk, "C12/exited-without-stop-success"),
+    -- a refused (or merely informational) command changes nothing
+    (isCmdOp op && !accepted o && (o.pubs != [] || o.stops != 0 || o.sent != [] || o.st != m.cur),
+      "C12/refused-changed-something"),
+    -- a command is always answered
+    (isCmdOp op && o.reply == none, "C12/command-unanswered") ]
+
+/-- the first violated clause, if any -/
 def Mon.check (m : Mon) (op : MOp) (o : Obs) : Option String :=
-  let accepted := o.reply == some Reply.ok
-  let isCmd := match op with | .cmd _ => true | _ => false
-  let retireAccepted := match op with | .cmd c => isRetireCmd c && accepted | _ => false
-  let exitAccepted := match op with | .cmd c => isExitCmd c && accepted | _ => false
-  -- the published state only ever moves forward
-  if !monotoneFrom m.cur.rank o.pubs then some "C12/state-regression"
-  -- the published state is the node's state
-  else if lastOr m.cur o.pubs ≠ o.st then some "C12/published-state-differs"
-  -- StopNode at most once, and only as part of an accepted exit
-  else if m.stopsTotal + o.stops > 1 then some "C12/stopnode-twice"
-  else if o.stops > 0 && !exitAccepted then some "C12/stopnode-without-exit"
-  -- services are told to retire only as part of an accepted retire
-  else if o.sent.any (fun p => p.2 == SCmd.retire) && !retireAccepted then some "C12/retire-sent-without-accept"
-  -- retire guard
-  else if retireAccepted && !(m.cur == .working || m.cur == .retiring) then some "C12/retire-accepted-in-wrong-state"
-  else if retireAccepted && !allIn m.n m.declared then some "C12/retire-accepted-without-support"
-  else if retireAccepted && !(List.range m.n).all (fun i => o.sent.contains (i, SCmd.retire)) then
-    some "C12/retire-not-told-everyone"
-  else if retireAccepted && o.st ≠ .retiring then some "C12/retire-accepted-not-retiring"
-  -- retired only after every hosted service reported retired
-  else if 3 ≤ o.st.rank && !allIn m.n m.reported then some "C12/retired-before-all-reported"
-  -- ... and as soon as all did (a node that hosts something)
-  else if 0 < m.n && allIn m.n m.reported && o.st.rank < 3 then some "C12/not-retired-after-all-reported"
-  -- exit guard
-  else if exitAccepted && m.cur ≠ .retired then some "C12/exit-accepted-when-not-retired"
-  else if exitAccepted && o.stops ≠ 1 then some "C12/exit-without-stopnode"
-  else if exitAccepted && o.st ≠ .exiting then some "C12/exit-accepted-not-exiting"
-  -- exited only after the stop succeeded
-  else if o.st == .exited && !m.stopOk then some "C12/exited-without-stop-success"
-  -- a refused (or merely informational) command changes nothing
-  else if isCmd && !accepted && (o.pubs ≠ [] || o.stops ≠ 0 || o.sent ≠ [] || o.st ≠ m.cur) then
-    some "C12/refused-changed-something"
-  -- a command is always answered
-  else if isCmd && o.reply == none then some "C12/command-unanswered"
-  else none
+  ((m.clauses op o).find? (·.1)).map (·.2)
 
 def Mon.step (m : Mon) (op : MOp) (o : Obs) : Mon × Option String :=
   let m1 := m.learn op
   let v := m1.check op o
   ({ m1 with cur := o.st, stopsTotal := m1.stopsTotal + o.stops }, v)
+
+/-- run the monitor over a trace; the first verdict wins -/
+def Mon.runAll (m : Mon) : List (MOp × Obs) → Option String
+  | [] => none
+  | (op, o) :: rest =>
+    match (m.step op o).2 with
+    | some v => some v
+    | none => (m.step op o).1.runAll rest
+
+/-- the monitor at the start of a case, from the observation of the start-up probe: a
+NodeService-kind service with an "ok" listener declared its support when it was asked -/
+def Mon.reset (kinds : List Kind) (ob : Obs) : Mon × Option String :=
+  let declared := (List.range kinds.length).filter fun i =>
+    kinds[i]? == some Kind.nodeOk && ob.sent.contains (i, SCmd.queryretire)
+  (Mon.init kinds.length declared).step .tick ob
+
+/-- a whole case: the probe observation, then the trace -/
+def monitorCase (kinds : List Kind) (resetObs : Obs) (tr : List (MOp × Obs)) : Option String :=
+  match (Mon.reset kinds resetObs).2 with
+  | some v => some v
+  | none => (Mon.reset kinds resetObs).1.runAll tr
+
+/-! ### observing the model: what `modeld_c12 model` prints, as data -/
+
+def replyOf (es : List Evt) : Option Reply := es.findSome? (fun e => match e with | .reply r => some r | _ => none)
+def pubsOf (es : List Evt) : List NS := es.filterMap (fun e => match e with | .pub s => some s | _ => none)
+def sentOf (es : List Evt) : List (Nat × SCmd) :=
+  es.filterMap (fun e => match e with | .send i c => some (i, c) | _ => none)
+
+def obsOf (s' : St) (es : List Evt) : Obs :=
+  { reply := replyOf es, pubs := pubsOf es, stops := stops es, sent := sentOf es, st := s'.st }
+
+/-- the operation as the monitor sees it: a support answer counts as a declaration only if
+the node's query was still outstanding (the weakest reading — every extra declaration the
+monitor is told about can only make it more permissive) -/
+def mopOf (s : St) : Op → MOp
+  | .cmd c => .cmd c
+  | .qack i ok => if s.qpend.contains i then .qack i ok else .qnone
+  | .svcRetired i => .svcRetired i
+  | .svcOther _ => .svcOther
+  | .stopDone succ => .stopDone (decide (0 < s.stopPend)) succ
+  | .tick => .tick
+
+/-- the observable trace of the model from state `s` -/
+def traceOf (s : St) : List Op → List (MOp × Obs)
+  | [] => []
+  | o :: os => (mopOf s o, obsOf (step true s o).1 (step true s o).2) :: traceOf (step true s o).1 os
 
 end Cell2v.Spec.C12
